@@ -458,6 +458,10 @@ impl Buffer {
         Arc::try_unwrap(self.data)
             .map(|bytes| unsafe {
                 let ptr = bytes.ptr().as_ptr().cast();
+                // The Vec takes over the allocation: release the pool reservation, which
+                // `forget` would otherwise leak
+                #[cfg(feature = "pool")]
+                drop(bytes.reservation.lock().unwrap().take());
                 std::mem::forget(bytes);
                 // Safety
                 // Verified that bytes layout matches that of Vec
